@@ -434,6 +434,55 @@ def forged_invalid_ke_downgrade(v):
     v.coverage['forged_invalid_ke_downgrade_runs'] = n
 
 
+def rejecting_responder_without_credential(v):
+    """The responder may turn down the first CHILD_SA and keep the IKE_SA (RFC 7296 1.2) - but the IKE_SA is established at the initiator only if IDr and AUTH of
+    that very response verify.  A responder that does NOT hold the configured credential (wrong secret / another identity / another key) and answers IKE_AUTH
+    with NO_PROPOSAL_CHOSEN or TS_UNACCEPTABLE for the CHILD_SA: failure at the initiator, never establishment (`Auth.tla` InitiatorAgreement: the outcome does
+    not depend on what else the fourth message carries)."""
+    n = 0
+    for auth in ('psk', 'rsa'):
+        for reject, by_ep in (('NO_PROPOSAL_CHOSEN', {'A': {'child_integ': ['sha1']}, 'B': {'child_integ': ['sha512']}}),
+                              ('TS_UNACCEPTABLE', {'A': {'mode': 'tunnel'}, 'B': {'mode': 'transport'}})):
+            for wrong in ('credential', 'identity', None):
+                w = wd.World(opts={'auth': auth}, opts_by_ep=by_ep, seed=common.SEED, start=False)
+                if wrong == 'credential' and auth == 'psk':
+                    w.conf['A']['A-B']['peer_auth']['psk'] = 'not-the-secret-of-bob-0000'
+                elif wrong == 'credential':
+                    w.conf['A']['A-B']['peer_auth']['pubkey'] = wd.rsa_pems()['X']['pub']
+                elif wrong == 'identity':
+                    w.conf['A']['A-B']['peer_auth']['id'] = 'somebody.else.example.org'
+                for e in 'AB':
+                    w.start(e)
+                try:
+                    m, cur, last = w.acquire('A'), 'A', None
+                    while m is not None:
+                        nxt = w.peer_of(cur)
+                        last, m, cur = (bytes(m) if cur == 'B' else last), w.dispatch(nxt, m, cur), nxt
+                    n += 1
+                    import probes
+                    kinds = []
+                    if last is not None and w.sas('B') and w.sas('B')[0].my_crypto is not None:
+                        try:
+                            kinds = [W.notify_name(p['ntype']) for p in W.dec_message(last, probes.keys_of(w.sas('B')[0].my_crypto))['inner'] if p['t'] == W.NOTIFY and p['ntype'] < 16384]
+                        except Exception:
+                            kinds = []
+                    up = [x.state.name for x in w.sas('A')]
+                    if wrong is None:
+                        if kinds != [reject] or up != ['ESTABLISHED']:
+                            raise common.MachineryError(f'control ({auth}, {reject}): the genuine responder answered {kinds}, initiator {up}')
+                        continue
+                    if reject not in kinds:
+                        raise common.MachineryError(f'the responder without the {wrong} did not answer IKE_AUTH with {reject} ({auth}): {kinds}')
+                    if 'ESTABLISHED' in up or any(r['kind'] == 'NEWSA' for r in w.kernel['A'].requests):
+                        v.violation(f'a responder with the wrong {wrong} ({auth}) that answers IKE_AUTH with {reject} for the CHILD_SA: the initiator marks the IKE_SA {up} - '
+                                    'established without a valid AUTH', {'auth': auth, 'reject': reject, 'wrong': wrong}, signature={'component': 'reject-without-auth', 'wrong': wrong})
+                except wd.Escape as ex:
+                    v.violation(f'rejecting responder without credential ({auth}, {reject}, {wrong}): {ex}', {}, signature={'component': 'reject-without-auth', 'wrong': 'escape'})
+                finally:
+                    w.close()
+    v.coverage['rejecting_responder_runs'] = n
+
+
 def run(tier, replay=None):
     v = common.Verdict('C02', tier, 'model_checking')
     rnd = random.Random(common.SEED)
@@ -537,4 +586,5 @@ def run(tier, replay=None):
                       'independent key schedule from values it owns; meaning-preserving rewrites (observation O-1) are not part of the menu',
                       'ecp256 only for the substituted KE values']
     forged_invalid_ke_downgrade(v)
+    rejecting_responder_without_credential(v)
     return v.finish()
